@@ -8,6 +8,8 @@ mod canvas;
 mod c13;
 mod c12;
 mod c02;
+mod c03;
+mod c04;
 mod c15;
 mod c18;
 mod session;
@@ -25,6 +27,8 @@ fn dispatch(prop: &str, case: &str) -> String {
         "C13" => c13::run(case),
         "C12" => c12::run(case),
         "C02" => c02::run(case),
+        "C03" => c03::run(case),
+        "C04" => c04::run(case),
         "C15" => c15::run(case),
         "C18" => c18::run(case),
         _ => "error:unknown-property".into(),
